@@ -30,6 +30,8 @@ RULE = ("arity 0-5 positional x 0-3 keyword x outcome per input (ok / exception 
         "fn returning or raising x completion order over 1-3 threads x schedules; distinct = distinct (program, schedule); "
         "non-trivial = output reached a terminal state")
 KWNAMES = ["ka", "kb", "kc"]
+# keyword names a user may well choose and an implementation may well use for its own parameters
+KWPOOL = ["ka", "kb", "kc", "x", "key", "fn", "f", "future", "args", "kwargs", "self", "result", "value", "out", "timeout", "fs"]
 
 
 def gen_scenarios(seed, tier):
@@ -48,7 +50,8 @@ def gen_scenarios(seed, tier):
         done_before = [j for j in order if rng.random() < 0.3]
         later = [j for j in order if j not in done_before]
         nth = rng.choice([1, 2, 3])
-        d = dict(npos=npos, nkw=nkw, inputs=inputs, done_before=done_before, completers=[later[k::nth] for k in range(nth)],
+        kwnames = rng.sample(KWPOOL, nkw) if rng.random() < 0.6 else KWNAMES[:nkw]
+        d = dict(kwnames=kwnames, npos=npos, nkw=nkw, inputs=inputs, done_before=done_before, completers=[later[k::nth] for k in range(nth)],
                  fn_raises=rng.random() < 0.15, idx=i, seed=rng.randrange(1 << 30))
         d.update(schedule_modes(rng))
         yield d
@@ -100,7 +103,8 @@ def body_for(desc, ctx):
                     f.set_running_or_notify_cancel()
         for j in desc["done_before"]:
             complete(j)
-        kw = {KWNAMES[i]: futs[1 + npos + i] for i in range(nkw)}
+        names = desc.get("kwnames") or KWNAMES
+        kw = {names[i]: futs[1 + npos + i] for i in range(nkw)}
         out = f_apply(futs[0], *futs[1:1 + npos], **kw)
         ctx.out = out
 
@@ -159,7 +163,7 @@ def run_one(desc):
             else:
                 a, k = ctx.calls[0]
                 want_a = tuple(ctx.vals[1:1 + npos])
-                want_k = {KWNAMES[i]: ctx.vals[1 + npos + i] for i in range(nkw)}
+                want_k = {(desc.get("kwnames") or KWNAMES)[i]: ctx.vals[1 + npos + i] for i in range(nkw)}
                 if not (len(a) == len(want_a) and all(x is y for x, y in zip(a, want_a))):
                     hits.append(hit("C16/positional-order", "fn got positional %r, expected %r" % (a, want_a)))
                 if not (set(k) == set(want_k) and all(k[x] is want_k[x] for x in want_k)):
@@ -178,9 +182,11 @@ def run_one(desc):
         if fin[0] == "ok" or (fin[0] == "err" and fin[1] is ctx.fn_exc):
             if ctx.calls:
                 a, k = ctx.calls[0]
+                kn = list(desc.get("kwnames") or KWNAMES)
                 idx = {id(v): j for j, v in enumerate(ctx.vals)}
                 got = "ok pos=[%s] kw=[%s]" % (", ".join(str(idx.get(id(x), -1)) for x in a),
-                                                ", ".join("(%d, %d)" % (KWNAMES.index(kk), idx.get(id(k[kk]), -1)) for kk in sorted(k)))
+                                                ", ".join("(%d, %d)" % (kn.index(kk), idx.get(id(k[kk]), -1))
+                                                          for kk in sorted(k, key=lambda z: kn.index(z) if z in kn else 99) if kk in kn))
             else:
                 got = "ok-without-call"
         elif fin[0] == "err":
